@@ -24,7 +24,7 @@ type SCase struct {
 }
 
 type SStmt struct {
-	Op    string // set add addc send recv close print loop recvloop select
+	Op    string // set add addc send recv close print loop recvloop rangeloop select
 	A, B  int
 	C     int
 	V     int64
@@ -51,6 +51,7 @@ type MProg struct {
 	Acts    []MAct
 	Heap    []MChan
 	Selects int
+	Ranges  int
 }
 
 // ---- flattening (the Lean side) ----
@@ -85,6 +86,11 @@ func (f *flat) stmts(body []SStmt) {
 			f.emit(fmt.Sprintf("(addc %d %d 1)", s.A, s.A))
 			f.emit(fmt.Sprintf("(jmp %d)", l))
 			f.s[j] = fmt.Sprintf("(jmp %d)", len(f.s))
+		case "rangeloop": // for v := range cC { sA = v; body }
+			l := f.emit("")
+			f.stmts(s.Body)
+			f.emit(fmt.Sprintf("(jmp %d)", l))
+			f.s[l] = fmt.Sprintf("(range %d %d %d)", s.A, s.C, len(f.s))
 		case "recvloop": // for { sA, ok(sB) = <-cC; if !ok break; body }
 			l := f.emit(fmt.Sprintf("(recv %d %d %d)", s.A, s.B, s.C))
 			t := f.emit("")
@@ -168,6 +174,10 @@ func (p *MProg) goStmts(b *strings.Builder, body []SStmt, ind string) {
 			fmt.Fprintf(b, "%sout = append(out, s%d)\n", ind, s.A)
 		case "loop":
 			fmt.Fprintf(b, "%sfor s%d = 0; s%d < s%d; s%d++ {\n", ind, s.A, s.A, s.B, s.A)
+			p.goStmts(b, s.Body, ind+"\t")
+			fmt.Fprintf(b, "%s}\n", ind)
+		case "rangeloop":
+			fmt.Fprintf(b, "%sfor v := range c%d {\n%s\ts%d = v\n", ind, s.C, ind, s.A)
 			p.goStmts(b, s.Body, ind+"\t")
 			fmt.Fprintf(b, "%s}\n", ind)
 		case "recvloop":
@@ -294,6 +304,8 @@ type mgen struct {
 	nslots      int
 	selects     int
 	allowSelect bool
+	allowRange  bool
+	ranges      int
 }
 
 // data slots: 0 is the constant zero, 1 is the scratch `ok`, 2.. are data
@@ -301,7 +313,7 @@ func (g *mgen) data() int { return 2 + g.rng.Intn(g.nslots-2) }
 
 func (g *mgen) simple(o *occ, inLoop bool, depth int) []SStmt {
 	r := g.rng
-	switch k := r.Intn(12); {
+	switch k := r.Intn(13); {
 	case k < 2:
 		return []SStmt{{Op: "set", A: g.data(), V: int64(r.Intn(200) - 50)}}
 	case k < 3:
@@ -331,6 +343,26 @@ func (g *mgen) simple(o *occ, inLoop bool, depth int) []SStmt {
 			o.closed[c] = true
 			return []SStmt{{Op: "close", C: c}}
 		}
+	case k < 12 && g.allowRange && !inLoop && depth == 0 && r.Intn(2) == 0:
+		// for v := range own: the channel must be closed first; it is drained
+		c := r.Intn(len(o.n))
+		var out []SStmt
+		if !o.closed[c] {
+			o.closed[c] = true
+			out = append(out, SStmt{Op: "close", C: c})
+		}
+		dst := g.data()
+		body := []SStmt{{Op: "print", A: dst}}
+		for j := r.Intn(3); j > 0; j-- {
+			d := g.data()
+			if d == dst {
+				continue
+			}
+			body = append(body, SStmt{Op: "add", A: d, B: d, C: dst})
+		}
+		o.n[c] = 0
+		g.ranges++
+		return append(out, SStmt{Op: "rangeloop", A: dst, C: c, Body: body})
 	default:
 		if g.allowSelect && depth < 2 {
 			if s, ok := g.sel(o); ok {
@@ -495,7 +527,7 @@ func fixSelectSlots(body []SStmt, counter, limit int) []SStmt {
 
 // genPrivate: W goroutines, each with its own channels.
 func genPrivate(rng *rand.Rand, workers int, allowSelect bool) *MProg {
-	g := &mgen{rng: rng, nslots: 4 + rng.Intn(4), allowSelect: allowSelect}
+	g := &mgen{rng: rng, nslots: 4 + rng.Intn(4), allowSelect: allowSelect, allowRange: true}
 	nch := 1 + rng.Intn(3)
 	o := &occ{n: make([]int, nch), cap: make([]int, nch), closed: make([]bool, nch)}
 	p := &MProg{Family: "private", NSlots: g.nslots, NChans: nch}
@@ -523,6 +555,7 @@ func genPrivate(rng *rand.Rand, workers int, allowSelect bool) *MProg {
 	}
 	p.Body = g.block(o, 4+rng.Intn(10), false, 0)
 	p.Selects = g.selects
+	p.Ranges = g.ranges
 	return p
 }
 
@@ -553,6 +586,11 @@ func genPipeline(rng *rand.Rand, stages int) *MProg {
 		body = append(body, SStmt{Op: "print", A: 2})
 	}
 	body = append(body, SStmt{Op: "send", C: 1, A: 2})
-	p.Body = []SStmt{{Op: "recvloop", A: 2, B: 1, C: 0, Body: body}, {Op: "print", A: 4}, {Op: "close", C: 1}}
+	loop := SStmt{Op: "recvloop", A: 2, B: 1, C: 0, Body: body}
+	if rng.Intn(2) == 0 {
+		loop = SStmt{Op: "rangeloop", A: 2, C: 0, Body: body}
+		p.Ranges = 1
+	}
+	p.Body = []SStmt{loop, {Op: "print", A: 4}, {Op: "close", C: 1}}
 	return p
 }
